@@ -505,6 +505,25 @@ def run(chk, repo):
                        why="frames read outside the try/finally that closes the file: on that path the file stays open "
                            "after the stream is exhausted", node=n)
     chk.floor("C18.close", nrf, 1, "uses of readframes")
+    # ownership: Wave_read.close() closes the underlying file only when the wave module opened it itself - a file
+    # object opened by the constructor and handed to wave.open must be closed by the constructor's own clean-up
+    wparam = ws.args.args[1].arg if len(ws.args.args) > 1 else "wave_file"
+    for n in ast.walk(ws):
+        if isinstance(n, ast.Call) and isinstance(n.func, ast.Name) and n.func.id in ("open", "io.open") or (
+                isinstance(n, ast.Call) and unparse(n.func) in ("io.open", "builtins.open", "io.FileIO", "io.BufferedReader")):
+            par_ = getattr(n, "_parent", None)
+            owner = unparse(par_.targets[0]) if isinstance(par_, ast.Assign) and par_.value is n else None
+            closed = owner is not None and any(
+                isinstance(c, ast.Call) and isinstance(c.func, ast.Attribute) and c.func.attr == "close"
+                and unparse(c.func.value) == owner
+                for t_ in ast.walk(ws) if isinstance(t_, ast.Try) for f_ in t_.finalbody for c in ast.walk(f_))
+            chk.decide(closed, "C18.close", WW("WavStream.__init__"), "file opened by the constructor: %s" % short(par_ if par_ is not None else n),
+                       why="closing the Wave_read object does not close a file object it was given: the file stays open after "
+                           "the stream is exhausted", node=n)
+    wopens = [n for n in ast.walk(ws) if isinstance(n, ast.Call) and unparse(n.func) == "wave.open"]
+    chk.decide(len(wopens) == 1 and wopens[0].args and unparse(wopens[0].args[0]) == wparam, "C18.close", WW("WavStream.__init__"),
+               "wave.open(%s, ..)" % (unparse(wopens[0].args[0]) if wopens and wopens[0].args else "?"),
+               why="the wave module opens (and therefore owns and closes) what the caller named", node=ws)
     last = docstring_free(ws.body)[-1]
     chk.decide(unparse(last) in ("super(WavStream, self).__init__(data_generator())", "super().__init__(data_generator())"),
                "C18.decode", WW("WavStream.__init__"), short(last), why="the Stream must wrap the decoding generator", node=last)
